@@ -239,7 +239,7 @@ def rows():
                  start=("some", "unpacked_size")))
     R.append(Row(9, "block padding is zero", "decode::xz::read_block",
                  lambda t: cmp2(t, lambda a: has_call(a, "read_u8"), lambda b: b == ("const", 0)) or
-                 (t[0] in ("ok", "okp") and has_call(t, "zero_padding") and has_call(t, "count"))))
+                 (t[0] in ("ok", "okp") and _padding_helper_call(t) and has_call(t, "count"))))
     R.append(Row(10, "block check CRC32", "decode::xz::validate_block_check",
                  lambda t: cmp2(t, lambda a: has_call(a, "read_u32"), lambda b: has_call(b, "checksum") and has_arg(b))))
     R.append(Row(10.5, "block check CRC64", "decode::xz::validate_block_check",
@@ -253,7 +253,7 @@ def rows():
                  lambda t: cmp2(t, lambda a: has_call(a, "get_multibyte"), lambda b: has_field(b, "unpacked_size"))))
     R.append(Row(14, "index padding is zero", "decode::xz::check_index",
                  lambda t: cmp2(t, lambda a: has_call(a, "read_u8"), lambda b: b == ("const", 0)) or
-                 (t[0] in ("ok", "okp") and has_call(t, "zero_padding") and has_call(t, "count"))))
+                 (t[0] in ("ok", "okp") and _padding_helper_call(t) and has_call(t, "count"))))
     R.append(Row(15, "index CRC32", "decode::xz::check_index",
                  lambda t: cmp2(t, lambda a: has_call(a, "read_u32") and not has_call(a, "finalize"),
                                 lambda b: has_call(b, "finalize"))))
@@ -279,6 +279,7 @@ def rule_table(facts):
     r = report.RuleResult("C06.R1", "every integrity field is compared with its counterpart; mismatch -> Err; no Ok path skips it")
     r3 = report.RuleResult("C06.R3", "comparisons are exact: no narrowing cast or wrapping arithmetic on a compared field")
     matched = {}
+    find_padding_helpers(facts)
     for row in rows():
         b = facts.body(row.fn) or next((x for x in facts.bodies if short(x.name).endswith(row.fn)), None)
         r.need("function %s" % row.fn, b is not None)
@@ -443,12 +444,49 @@ def rule_records(facts):
     return r
 
 
+PADDING_HELPERS = set()     # names of crate functions returning io::Result<bool> that are handed the padding count (filled per run)
+
+
+def _padding_helper_call(t):
+    return flow.term_has(t, lambda q: q[0] == "call" and (("zero_padding" in q[1] and not q[1].endswith("flush_zero_padding")) or q[1] in PADDING_HELPERS))
+
+
+def find_padding_helpers(facts):
+    """Crate functions that return io::Result<bool> and are called from the XZ block / index code with the padding count."""
+    PADDING_HELPERS.clear()
+    found = {}
+    for b in facts.bodies:
+        if b.promoted is not None or not short(b.name).startswith("decode::xz::"):
+            continue
+        tm = None
+        for blk in b.calls():
+            cal = blk.term.callee
+            if cal is None or not cal.target().local:
+                continue
+            hb = facts.by_def.get(cal.target().defk)
+            if hb is None or "Result<bool" not in hb.locals[0].ty.s.replace(" ", ""):
+                continue
+            tm = tm or Terms(b)
+            if any(has_call(tm.of_operand(a), "count") and pat_has_op(tm.of_operand(a)) for a in blk.term.args):
+                nm = flow.callee(blk.term) or ""
+                if not nm.endswith("flush_zero_padding"):
+                    found[cal.target().defk] = nm
+                    PADDING_HELPERS.add(flow.declared(blk.term) or nm)
+                    PADDING_HELPERS.add(nm)
+    return found
+
+
+def pat_has_op(t):
+    from rules import pat
+    return pat.has_op(t, ("BitAnd", "BitXor", "Rem", "Sub"))
+
+
 def rule_padding_helpers(facts):
     """Where a padding check is delegated to a helper returning bool, the helper must be a zero test of every byte: each
     byte compared with 0, or an OR-accumulation compared with 0.  (An XOR / sum accumulation lets pairs of non-zero bytes
     cancel out.)  flush_zero_padding, the scan loop, is decided by C13."""
     r = report.RuleResult("C06.R5", "a delegated padding check tests every byte for zero")
-    helpers = {}
+    helpers = dict(find_padding_helpers(facts))
     for b in facts.bodies:
         if b.promoted is not None or not short(b.name).startswith(("decode::xz::", "decode::util::")):
             continue
